@@ -109,6 +109,12 @@ def is_int(value):
         return False
 
 
+def unescape(text):
+    # process backslash escapes (newline, tab, hex, ...) without mangling non-ASCII text:
+    # unicode_escape reads bytes as latin-1, so anything beyond that goes in as an escape
+    return text.encode('latin-1', 'backslashreplace').decode('unicode_escape')
+
+
 def sign_extend(value, bits):
     sign_bit = 1 << (bits - 1)
     return (value & (sign_bit - 1)) - (value & sign_bit)
@@ -1154,7 +1160,7 @@ class Arithmetic(Expr):
         # check for single ASCII characters
         if self.expr.startswith('\'') and self.expr.endswith('\''):
             c = self.expr[1:-1]
-            c = c.encode('utf-8').decode('unicode_escape')
+            c = unescape(c)
             try:
                 return ord(c)
             except TypeError:
@@ -2155,7 +2161,7 @@ def lex_tokens(line):
     match = RE_ERROR.match(line.contents)
     if match is not None:
         message = match.group(1)
-        message = message.encode('utf-8').decode('unicode_escape')
+        message = unescape(message)
         tokens = ['error', message]
         return LineTokens(line, tokens)
 
@@ -2163,7 +2169,7 @@ def lex_tokens(line):
     match = RE_STRING.match(line.contents)
     if match is not None:
         value = match.group(1)
-        value = value.encode('utf-8').decode('unicode_escape')
+        value = unescape(value)
         tokens = ['string', value]
         return LineTokens(line, tokens)
 
